@@ -328,7 +328,8 @@ func (ci *circuit[T]) Define(api frontend.API) error {
 			}
 			res = f.FromBits(bs...)
 		case "BitsRoundTrip":
-			res = f.FromBits(f.ToBits(P(0))...)
+			// on the reduced operand: FromBits is only used with at most NbLimbs*BitsPerLimb bits
+			res = f.FromBits(f.ToBits(f.Reduce(P(0)))...)
 		case "ToBits":
 			nat = f.ToBits(P(0))
 		case "ToBitsCanonical":
